@@ -130,9 +130,10 @@ def run(rep, facts, tier):
     rep.floor('C11.R1 data_stack access events in words', n_ds, 30)
     rep.floor('C11.R2 heap access events in words', n_heap, 6)
     # callers of the slicers pass a mark made in this context
+    Vs = inline.View(fx)
     for sl, argi in SLICERS.items():
         for caller in sorted(fx.callers().get(sl, ())):
-            f = fx.fns[caller]
+            f = Vs(caller)        # a private helper that pops the mark (`builder_stack_start`) is looked through
             for bb, t in f.calls():
                 if callee_of(t) != sl:
                     continue
@@ -152,6 +153,10 @@ def run(rep, facts, tier):
                 c = cmp_of(br[0])
                 if c and c[0] == 'Gt' and 'data_depth' in expr_str(c[2], -10):
                     okc = True
+        # the same bound spelled data_depth().checked_sub(n): None (-> StackUnderflow) exactly when n > depth
+        for bb, t in cf.calls():
+            if (callee_of(t) or '').endswith('<impl usize>::checked_sub') and 'data_depth' in expr_str(cf.expr_of_operand(t['args'][0]), -10):
+                okc = True
         rep.add('C11.R1', 'C11.R1:collect:count-checked-against-depth', okc, 'n > data_depth() -> StackUnderflow before slicing' if okc else
                 'collect does not bound its count by data_depth()', cf.name, cf.j['span'])
     # the floor itself: a meta block starts with an empty stack of its own.  The floor a context opens with may be taken over
